@@ -3,7 +3,7 @@ import ast
 import re
 
 from ..core import AnalysisError, src, qualname_of
-from ..pysym import SymExec, show, subterms
+from ..pysym import SymExec, show, subterms, str_parts
 from ..rules_pyx import N, C, A
 from .. import codec
 from .c19 import grammar_labels
@@ -237,8 +237,7 @@ def r_ids(repo, rep, R='R15.3'):
             child_ok = child == ('sym', 'id-of', 'left_child') or child == ('sym', 'id-of', 'child')
         else:
             L, Rr = ('sym', 'id-of', 'left_child'), ('sym', 'id-of', 'right_child')
-            child_ok = child in (('binop', '+', L, ('binop', '+', C(' '), Rr)), ('binop', '+', ('binop', '+', L, C(' ')), Rr),
-                                 ('fstr', (L, ' ', Rr)), ('call', A(C(' '), 'join'), (('list', (L, Rr)),), ()), ('call', A(C(' '), 'join'), (('tuple', (L, Rr)),), ())) \
+            child_ok = child is not None and str_parts(child) == [L, ' ', Rr] \
                 and st.data.get('order') == ['left_child', 'right_child']
         kinds[kind] = (once, ret_ok, child_ok, show(child)[:60] if child else None)
     for kind in ('leaf', 'unary', 'binary'):
